@@ -151,7 +151,7 @@ fn exhaustive(ctx: &mut Ctx, univ: &Univ) {
     let plans: Vec<(&str, Vec<u8>, u32)> = if ctx.quick() {
         vec![("exh6", b"ab/.*^".to_vec(), 6)]
     } else {
-        vec![("exh6", b"ab/.*^".to_vec(), 7), ("exh8", b"ab/.*^-?".to_vec(), 6)]
+        vec![("exh6", b"ab/.*^".to_vec(), 8), ("exh8", b"ab/.*^-?".to_vec(), 6)]
     };
     for (sub, alpha, maxlen) in plans {
         let total = count_bodies(alpha.len(), maxlen);
@@ -198,7 +198,7 @@ fn exhaustive(ctx: &mut Ctx, univ: &Univ) {
 fn exhaustive_meta(ctx: &mut Ctx, univ: &Univ) {
     let sub = "meta";
     let alpha = b"a+([?.*^".to_vec();
-    let maxlen = if ctx.quick() { 4 } else { 5 };
+    let maxlen = if ctx.quick() { 4 } else { 6 };
     let total = count_bodies(alpha.len(), maxlen);
     let mut complete = true;
     for k in 0..total {
@@ -321,7 +321,7 @@ fn is_regex_spelling(body: &str) -> bool {
 fn weakening(ctx: &mut Ctx, univ: &Univ) {
     let sub = "weak";
     let alpha = b"ab/.*^".to_vec();
-    let maxlen = if ctx.quick() { 5 } else { 6 };
+    let maxlen = if ctx.quick() { 5 } else { 7 };
     let total = count_bodies(alpha.len(), maxlen);
     let mut cache: HashMap<String, Option<Vec<bool>>> = HashMap::new();
     let mut complete = true;
@@ -478,7 +478,7 @@ fn instantiate(r: &mut Rng, body: &str) -> String {
 
 fn random(ctx: &mut Ctx) {
     let sub = "rand";
-    let cases = ctx.n(150_000, 4_000_000);
+    let cases = ctx.n(150_000, 12_000_000);
     for idx in 0..cases {
         if ctx.stop() {
             break;
@@ -639,7 +639,7 @@ fn scheme(ctx: &mut Ctx) {
 /// `/re/` rules from a small lower-case regex grammar vs the regex crate evaluated by the harness.
 fn full_regex(ctx: &mut Ctx) {
     let sub = "regex";
-    let cases = ctx.n(6_000, 200_000);
+    let cases = ctx.n(6_000, 1_000_000);
     for idx in 0..cases {
         if ctx.stop() {
             break;
